@@ -47,7 +47,11 @@ RULE = ("Five sub-checks. uniform_direct: level vector (d 1-3, levels 1-3, <=64 
         "train or train_spatially_adaptive on generic targets, then optimize_coefficients[_spatially_adaptive] with a "
         "drawn sequence of options 1-3, sum of coefficients after each. Sample coordinates are drawn in the scaled space "
         "(lattice values k/16, the range ends 0.05/0.95, or arbitrary floats; optionally pinned so that lattice values "
-        "hit grid nodes exactly) and mapped through a drawn affine map per dimension. Non-trivial = d>=2, an anisotropic "
+        "hit grid nodes exactly) and mapped through a drawn affine map per dimension. Units: in every sub that trains, the targets are y' = s*(y+o) with s in {1e-12,...,1e9} "
+        "(the library never rescales targets; all residuals are relative, i.e. scale free) and the features x = a + b*t with b "
+        "in {1e-9,...,1e9} and offsets up to 3e5 (the library rescales them). One uniform_direct case in 20 and one train case "
+        "in 16 has a component grid with more than 100 points (105-225; lmin=1,lmax=6 / lmin=lmax=4 / [7] / [4,3] / [3,3,2] ...), "
+        "and fixed cases of that kind with targets of size 1e-9 and 1e-12 run first on shard 0. Non-trivial = d>=2, an anisotropic "
         "grid (level vector / node lists differ between dimensions), lambda>0 and matrix 'C' (for opticom: d>=2, >=3 "
         "component grids and >=2 options applied). Distinct = distinct case dict.")
 ASSUMPTIONS = [
@@ -66,6 +70,11 @@ ASSUMPTIONS = [
     "train sequences: a train() call AFTER train_spatially_adaptive() on the same object is not generated (it raises "
     "AttributeError on the unchanged tree: the spatially adaptive call leaves its GlobalTrapezoidalGrid and dimension_wise=True "
     "behind); run_train recognises it by cause once GENERATE_TRAIN_AFTER_SA is switched on",
+    "the scaling clause allows 1e-12 + 32 eps max|x| / (max x - min x) per dimension: any floating-point evaluation of the affine "
+    "map on coordinates with a large offset loses that much (sklearn: x*scale+min, reference: (x-min)*scale+lo); the design "
+    "matrix is then compared at the scaled points the operation holds",
+    "matrix 'C' on grids > 150 points and 3-D level ranges with grids > 100 points are not generated in the quick tier "
+    "(build_C_matrix needs ~40 microseconds per pair of basis functions: 3-40 s per case)",
     "uniform_direct / dimwise_direct follow the protocol of test/test_Regression.py (training set := scaled data set, "
     "grid.numPoints set by the caller, methods called directly)",
 ]
@@ -1223,7 +1232,7 @@ def selftest():
 
 
 SUBS = [
-    # quick: about 4 CPU-minutes in total (about 25 s wall on 16 idle cores); the budgets only cut in on a loaded machine.
+    # quick: about 4.5 CPU-minutes in total single-threaded (25-30 s wall on 16 idle cores); the budgets only cut in on a loaded machine.
     # train_sa has the largest share: long 2-D refinement histories are the only way to reach a re-solve of a level vector on a
     # grid of unchanged shape but different coordinates (about 2-4 % of the bulk cases)
     Sub("uniform_direct", uniform_direct_strategy, run_uniform_direct, dict(quick=960, thorough=8000),
@@ -1234,6 +1243,6 @@ SUBS = [
         budget_s=dict(quick=18, thorough=110), fixed_cases=train_fixed),
     Sub("train_sa", train_sa_strategy, run_train_sa, dict(quick=1600, thorough=10000),
         budget_s=dict(quick=30, thorough=140), fixed_cases=train_sa_fixed),
-    Sub("opticom", opticom_strategy, run_opticom, dict(quick=800, thorough=6000),
+    Sub("opticom", opticom_strategy, run_opticom, dict(quick=640, thorough=6000),
         budget_s=dict(quick=20, thorough=120), fixed_cases=opticom_fixed),
 ]
